@@ -5,6 +5,7 @@ binImgs / each ring of azimuthal_average / each node circle of encircled_energy 
 which target nodes of the zoom grid coincide with source nodes.  The real functions are run on
 token-valued / integer images and compared with those sets."""
 import json
+import math
 import os
 import tempfile
 import warnings
@@ -46,15 +47,10 @@ def ee_cases(rng, count, sizes):
             xc2, yc2 = 2 * dim, 2 * dim
         rad = np.linspace(0, dim ** (1. / E), NPT) ** E
         r2 = rad * rad
-        r2s = [int(round(v * 2 ** 20)) for v in r2]
-        # reject radii that are within 1e-5 of a pixel distance: there float rounding decides membership
-        d2 = set()
-        for r in range(n):
-            for c in range(n):
-                d2.add(((2 * c + 1 - xc2) ** 2 + (2 * r + 1 - yc2) ** 2) / 4.0)
-        near = any(abs(v - d) < 1e-5 and not (v == 0.0 and d == 0.0) for v in r2 for d in d2)      # 0 <= 0 is exact, not a tie
-        if near:
-            continue
+        # floor, not round: pixel distances^2 are multiples of 1/4, so d2 * 2^20 is an integer and
+        #   d2 <= r2 (the code's float comparison, both sides exact)  <=>  d2 * 2^20 <= floor(r2 * 2^20)
+        # - the model's integer comparison reproduces the code's decision even when a radius hits a pixel distance exactly
+        r2s = [int(math.floor(v * 2 ** 20)) for v in r2]
         cases.append(dict(id=len(cases), n=n, xc2=xc2, yc2=yc2, img=img.tolist(), r2s=r2s))
     return cases
 
@@ -110,6 +106,9 @@ def check_azi(psf, c, rng):
             if not ok:
                 bad.append(("azimuthal_average:ring-mean", dict(n=n, ring=k, got=float(got[k]), expected=e1)))
                 break
+        gi = np.asarray(psf.azimuthal_average(img.astype(np.int64)), float)              # detector counts as integers
+        if gi.shape != got.shape or not np.allclose(gi, got, rtol=0, atol=1e-12):
+            bad.append(("azimuthal_average:integer-image", dict(n=n, got=gi.tolist(), float=got.tolist())))
         if t == 0 and not np.all(got == 7.0):
             bad.append(("azimuthal_average:constant-image", dict(n=n, got=got.tolist())))
         if np.any(got < img.min() - 1e-12) or np.any(got > img.max() + 1e-12) or not np.all(np.isfinite(got)):
@@ -129,6 +128,9 @@ def check_ee(psf, c, case):
     kw = {} if default else dict(center=centre)
     xi, yi = psf.encircled_energy(img.copy(), eeDiameter=False, **kw)
     xi, yi = np.asarray(xi, float), np.asarray(yi, float)
+    xi_i, yi_i = psf.encircled_energy(img.astype(np.int64), eeDiameter=False, **kw)
+    if not np.allclose(np.asarray(yi_i, float), yi, rtol=0, atol=1e-12):
+        bad.append(("encircled_energy:integer-image", dict(got=np.asarray(yi_i, float).tolist())))
     counts = np.array([a for a, b in c["nodes"]], float)
     sums = np.array([b for a, b in c["nodes"]], float)
     rad = np.append(0, np.sqrt(counts * 4 / np.pi))
@@ -193,6 +195,12 @@ def check_zoom(interp, c, facts, rng, runner):
                                                                          err=float(np.abs(zz - want).max()))))
                     break
             if bad:
+                break
+            ai = np.rint(a * 8).astype(np.int64)
+            zi = np.asarray(f(ai.copy(), (m, m), order=order), float)
+            zf = np.asarray(f(ai.astype(float), (m, m), order=order), float)
+            if zi.shape != (m, m) or not np.allclose(zi, zf, rtol=0, atol=1e-9 * max(1.0, np.abs(zf).max())):
+                bad.append(("%s:integer-array" % fname, dict(n=n, m=m, order=order)))
                 break
             zc = np.asarray(f((a + 1j * b).copy(), (m, m), order=order))
             zb = np.asarray(f(b.copy(), (m, m), order=order))
@@ -275,8 +283,8 @@ def run(run):
     run.assumptions += [
         "spline values between nodes are FITPACK numerics and are trusted; only identity, node pass-through, polynomial "
         "exactness and the complex split are asserted (1e-9)",
-        "encircled-energy node radii are irrational: they are computed by the harness with the public formula, handed to TLC "
-        "scaled by 2^20, and cases with a radius within 1e-5 px^2 of a pixel distance are not generated",
+        "encircled-energy node radii are irrational: they are computed by the harness with the public formula and handed to TLC as "
+        "floor(r^2 * 2^20), which makes the model's integer membership test equivalent to the code's float comparison",
     ]
 
 
